@@ -4,6 +4,7 @@ A body is evaluated over an abstract domain (roots = the storage objects behind 
 reads/writes with symbolic indices, loop and zip iteration variables, running counters) into a list of write
 effects   target[index] := value   under loops / conditions. Bodies using an idiom the evaluator does not know
 raise Unrecognised; they are never reported as violations."""
+import re
 from lib.facts import is_node, path_of, render, render_stmt
 
 
@@ -117,6 +118,13 @@ class Kernel:
             if isinstance(val, tuple) and val[0] == "call" and val[1] == "shape" and len(pat[1]) == 2:
                 self.bind(pat[1][0], ("nrows", val[2]), env)
                 self.bind(pat[1][1], ("ncols", val[2]), env)
+                return
+            if isinstance(val, tuple) and val[0] == "elem" and len(pat[1]) == 2 and len(val[2]) == 1 and re.search(r"\.data(\(\))?$", show(val[1])):
+                # iteration over a table's column map: (column id, (kind, column matrix))
+                owner = root_of(val[1]) or show(val[1])
+                v = val[2][0]
+                self.bind(pat[1][0], ("colkey", v), env)
+                self.bind(pat[1][1], ("tuple", [("colkind", owner, v), ("column", owner, v)]), env)
                 return
             raise Unrecognised("tuple pattern against %s" % show(val))
         if t == "pref":
@@ -417,6 +425,17 @@ class Kernel:
                 # self.x.clone() of a Ref: still that root
                 return ("root", recv[1])
             return recv
+        if m in ("get", "get_mut") and len(args) == 1 and isinstance(args[0], tuple) and args[0][0] == "colkey" and re.search(r"\.data(\(\))?$", show(recv)):
+            owner = root_of(recv) or show(recv)
+            return ("tuple", [("colkind", owner, args[0][1]), ("column", owner, args[0][1])])
+        if m == "index1d" and len(args) == 1:
+            return ("elem", recv, (("op", "-", args[0], ("int", 1)),))
+        if m == "set_index1d" and len(args) == 2:
+            self.emit(("elem", recv, (args[0],)), args[1])
+            return ("unit",)
+        if m == "insert" and len(args) == 2 and isinstance(args[0], tuple) and args[0][0] == "colkey":
+            self.emit(("elem", recv, (args[0],)), args[1])
+            return ("unit",)
         if m == "len":
             return ("len", recv)
         if m in ("nrows", "ncols"):
